@@ -193,7 +193,7 @@ func raceSignature(blk, repoMarker string) string {
 			inStack = true
 		case strings.HasPrefix(t, "Goroutine "):
 			inStack = false
-		case inStack && strings.Contains(t, repoMarker) && strings.HasSuffix(t, "()"):
+		case inStack && strings.HasSuffix(t, "()") && (strings.HasPrefix(t, "main.") || strings.Contains(t, repoMarker+".")):
 			fn := t[strings.LastIndex(t, "/")+1:]
 			tops = append(tops, fn)
 			inStack = false
